@@ -251,7 +251,7 @@ func (tc *twoChain) deliver(chain int) {
 
 func (tc *twoChain) pickCrash() string {
 	if tc.p.Faults && !tc.draining && tc.r.Chance(1, 12) {
-		return []string{"before-finalize", "after-finalize-before-commit", "after-commit"}[tc.r.Intn(3)]
+		return []string{"before-finalize", "after-finalize-before-commit", "after-commit", "aborted-optimistic-execution"}[tc.r.Intn(4)]
 	}
 	return ""
 }
